@@ -41,6 +41,7 @@ type c11ColT struct {
 
 type c11RelD struct {
 	Field  string      // Go field name on the parent model
+	Emb    string      // dotted path of the `embedded`-tagged struct fields the relation is declared in ("" = top level / promoted)
 	Kind   string      // has_one has_many belongs_to many2many poly_one poly_many self_* (histogram only)
 	Child  string      // child table
 	Single bool        // pointer to one struct (Joins-able)
@@ -62,6 +63,7 @@ type c11Family struct {
 	Name   string
 	Tables []*c11Table
 	Gen    func(rng *rand.Rand, mode int) c11World
+	Decoys []c11Decoy // scale generator: columns no relation reads, filled with the neighbouring row's value of a same-named key column
 }
 
 type c11World struct {
@@ -332,6 +334,9 @@ type c11Node struct {
 	Inner    bool    `json:"inner,omitempty"`
 	Cond     c11Cond `json:"cond"`
 	Explicit bool    `json:"explicit,omitempty"` // interior preload node without condition: call Preload(path) itself too
+	// preload node of a relation declared inside embedded structs: name it by its embedded path ("Outer.Inner.Zone") instead of
+	// its bare name ("Zone"); both spellings are legal
+	ByEmb bool `json:"by_emb,omitempty"`
 	// join nodes: column list of the joined relation, given on the join's handle as Select(...) / Omit(...) (db or Go field
 	// names); the row number n always stays selected, so which child was attached remains observable
 	Sel  []string   `json:"sel,omitempty"`
@@ -541,10 +546,23 @@ func c11JoinOn(db *gorm.DB, c c11Cond, alias string, childType reflect.Type) *go
 func c11Alias(path []string) string { return strings.Join(path, "__") }
 
 func (f *c11Family) applyNodes(db, q *gorm.DB, t *c11Table, prefix []string, nodes []*c11Node) *gorm.DB {
+	return f.applyNodesP(db, q, t, prefix, prefix, nodes)
+}
+
+// prefix = relation names from the root (join names, aliases); pprefix = the same path as spelt for Preload (embedded paths)
+func (f *c11Family) applyNodesP(db, q *gorm.DB, t *c11Table, prefix, pprefix []string, nodes []*c11Node) *gorm.DB {
 	for _, nd := range nodes {
 		rel := t.rel(nd.Rel)
 		path := append(append([]string{}, prefix...), nd.Rel)
+		ppath := append([]string{}, pprefix...)
+		if nd.ByEmb && !nd.Join && rel.Emb != "" {
+			ppath = append(ppath, rel.Emb)
+		}
+		ppath = append(ppath, nd.Rel)
 		name := strings.Join(path, ".")
+		if !nd.Join {
+			name = strings.Join(ppath, ".")
+		}
 		if nd.Join {
 			var args []interface{}
 			if nd.Cond.Kind != "" || len(nd.Sel) > 0 || len(nd.Omit) > 0 {
@@ -568,7 +586,7 @@ func (f *c11Family) applyNodes(db, q *gorm.DB, t *c11Table, prefix []string, nod
 		} else if nd.Cond.Kind != "" || nd.Cond.Style == "idfunc" || len(nd.Kids) == 0 || nd.Explicit {
 			q = q.Preload(name, c11PreloadArgs(nd.Cond)...)
 		}
-		q = f.applyNodes(db, q, f.table(rel.Child), path, nd.Kids)
+		q = f.applyNodesP(db, q, f.table(rel.Child), path, ppath, nd.Kids)
 	}
 	return q
 }
@@ -649,7 +667,7 @@ func c11ViewV(v reflect.Value, nodes []*c11Node) string {
 	if len(nodes) > 0 {
 		sb.WriteString("{")
 		for _, nd := range nodes {
-			fv := v.FieldByName(nd.Rel)
+			fv := c11FieldDeep(v, nd.Rel) // relations may be declared inside embedded structs
 			var elems []reflect.Value
 			switch fv.Kind() {
 			case reflect.Ptr:
@@ -1255,7 +1273,22 @@ func (f *c11Family) genOp(rng *rand.Rand, w c11World) c11Op {
 	if rng.Intn(5) == 0 {
 		op.Ctx = []string{"tx", "prepare", "conn", "txprepare"}[rng.Intn(4)]
 	}
+	f.sprinkleEmb(rng, t, op.Nodes)
+	if op.All && op.AllC.Kind != "" && op.AllC.Style != "scope" && t.hasEmb() && rng.Intn(4) > 0 {
+		op.AllC.Style = "scope" // stay away from the listed finding F35 most of the time
+	}
 	return op
+}
+
+// preload nodes of relations declared inside embedded structs: half of them are named by their embedded path
+func (f *c11Family) sprinkleEmb(rng *rand.Rand, t *c11Table, nodes []*c11Node) {
+	for _, nd := range nodes {
+		rel := t.rel(nd.Rel)
+		if rel.Emb != "" && !nd.Join {
+			nd.ByEmb = rng.Intn(2) == 0
+		}
+		f.sprinkleEmb(rng, f.table(rel.Child), nd.Kids)
+	}
 }
 
 // ---- histogram helpers -------------------------------------------------------------------------------------
